@@ -43,13 +43,13 @@ def functions_of(text):
                         out.append(FnInfo(q, it.name, line_of(text, it.attr_start), line_of(text, it.end), mode))
                     elif it.kind in ("impl", "trait") and it.children is not None:
                         if it.kind == "impl":
-                            h = re.sub(r"^impl(<[^>]*>)?", "", it.header)
-                            h = re.sub(r"<[^<>]*>", "", h)
-                            h = re.sub(r"<[^<>]*>", "", h)
-                            p = h.replace("for", " for ") if "for" in h else h
-                            # header tokens were joined without spaces: `AforB`
-                            m = re.match(r"^(\w+)for(\w+)$", h)
-                            p = ("%s as %s" % (m.group(2), m.group(1))) if m else h
+                            h = re.sub(r"^impl\s*(<[^>]*>)?", "", it.header)
+                            for _ in range(3):
+                                h = re.sub(r"<[^<>]*>", "", h)
+                            h = re.sub(r"\s+", " ", h).strip()
+                            m = re.match(r"^(.+?) for (.+)$", h)
+                            def short(x): return x.replace(" ", "").split("::")[-1]
+                            p = ("%s as %s" % (short(m.group(2)), short(m.group(1)))) if m else short(h)
                         else:
                             p = it.name
                         walk(it.children, p)
